@@ -249,7 +249,7 @@ def forge_lzma2(c):
         out = bytes([f1]) + usz + csz + payload
     else:
         out = bytes([f1]) + usz + csz + (bytes([pb]) if f1 >= 0xC0 else b"") + payload + (b"\0" if c["f4"] != "cut" else b"")
-    d = {"4096": 4096, "64k": 65536, "2p32m1": 0xFFFFFFFF}[c["f5"]]
+    d = {"4096": 4096, "64k": 65536, "2p32m1": 0xFFFFFFFF, "0": 0, "1": 1}[c["f5"]]
     return out, [{"kind": "lzma2", "dict": d}, {"kind": "lzma2_mt", "dict": d, "workers": 2}]
 
 
